@@ -32,7 +32,8 @@ fn main() {
     if args[0] == "nest" {
         install_panic_hook();
         let depth: usize = args.get(2).and_then(|d| d.parse().ok()).unwrap_or(1);
-        std::process::exit(props::c12::nest_child(args.get(1).map(|s| s.as_str()).unwrap_or(""), depth));
+        let all_rules = args.get(3).map(|s| s == "all").unwrap_or(false);
+        std::process::exit(props::c12::nest_child(args.get(1).map(|s| s.as_str()).unwrap_or(""), depth, all_rules));
     }
     let mut tier = match std::env::var("VERIF_TIER").as_deref() {
         Ok("thorough") => Tier::Thorough,
